@@ -44,31 +44,42 @@ impl GenericDataBlock {
     /// their floating point representation. Additionally, identifies special values such as "below
     /// threshold" and "range folded".
     pub fn decoded_values(&self) -> Vec<ScaledMomentValue> {
+        if self.header.data_word_size == 16 {
+            return self
+                .encoded_data
+                .chunks_exact(2)
+                .map(|word| self.scaled_value(u16::from_be_bytes([word[0], word[1]])))
+                .collect();
+        }
+
         self.encoded_data
             .iter()
-            .copied()
-            .map(|raw_value| {
-                if self.header.scale == 0.0 {
-                    return ScaledMomentValue::Value(raw_value as f32);
-                }
-
-                match raw_value {
-                    0 => ScaledMomentValue::BelowThreshold,
-                    1 => ScaledMomentValue::RangeFolded,
-                    _ => ScaledMomentValue::Value(
-                        (raw_value as f32 - self.header.offset) / self.header.scale,
-                    ),
-                }
-            })
+            .map(|&raw_value| self.scaled_value(raw_value as u16))
             .collect()
+    }
+
+    /// Decodes a single gate's raw fixed-point value.
+    fn scaled_value(&self, raw_value: u16) -> ScaledMomentValue {
+        if self.header.scale == 0.0 {
+            return ScaledMomentValue::Value(raw_value as f32);
+        }
+
+        match raw_value {
+            0 => ScaledMomentValue::BelowThreshold,
+            1 => ScaledMomentValue::RangeFolded,
+            _ => ScaledMomentValue::Value(
+                (raw_value as f32 - self.header.offset) / self.header.scale,
+            ),
+        }
     }
 
     /// Get moment data from this generic data block. Note that this will clone the underlying data.
     #[cfg(feature = "nexrad-model")]
     pub fn moment_data(&self) -> nexrad_model::data::MomentData {
-        nexrad_model::data::MomentData::from_fixed_point(
+        nexrad_model::data::MomentData::from_fixed_point_with_word_size(
             self.header.scale,
             self.header.offset,
+            self.header.data_word_size,
             self.encoded_data.clone(),
         )
     }
@@ -76,9 +87,10 @@ impl GenericDataBlock {
     /// Convert this generic data block into common model moment data, minimizing data copies.
     #[cfg(feature = "nexrad-model")]
     pub fn into_moment_data(self) -> nexrad_model::data::MomentData {
-        nexrad_model::data::MomentData::from_fixed_point(
+        nexrad_model::data::MomentData::from_fixed_point_with_word_size(
             self.header.scale,
             self.header.offset,
+            self.header.data_word_size,
             self.encoded_data,
         )
     }
